@@ -23,9 +23,23 @@ Print Assumptions C07_load_total.
 Theorem C07_load_spec : forall rows aliases, wf_file rows aliases = true ->
   exists m, load true rows aliases = Some m /\
     (forall g, dget (upper g) m = if known rows aliases g then Some (defs rows aliases g) else None) /\
-    (forall f a, In (f, a) aliases -> dget (upper a) m = dget (upper f) m).
+    (forall f a, In (f, a) aliases -> dget (upper a) m = dget (upper f) m /\ known rows aliases f = true).
 Proof. exact load_spec. Qed.
 Print Assumptions C07_load_spec.
+
+(* S itself treats names as the statement says: a name that is no alias stands for itself (upper-cased),
+   an alias is known and has exactly the definitions of the group it names *)
+Theorem C07_spec_group_direct : forall aliases g,
+  (forall f a, In (f, a) aliases -> upper a <> upper g) -> target aliases g = upper g.
+Proof. exact target_not_alias. Qed.
+Print Assumptions C07_spec_group_direct.
+
+Theorem C07_spec_alias_same : forall rows aliases m,
+  wf_file rows aliases = true -> load true rows aliases = Some m ->
+  forall f a, In (f, a) aliases ->
+  known rows aliases f = true /\ known rows aliases a = true /\ defs rows aliases a = defs rows aliases f.
+Proof. exact spec_alias_same. Qed.
+Print Assumptions C07_spec_alias_same.
 
 (* M refines S on every call the correspondence run makes (flagval, flagname +concat, flagexist, both round trips) *)
 Theorem C07_model_refines_spec : forall rows aliases m,
@@ -67,9 +81,8 @@ Theorem C07_names_determined : forall d v pairs, wf_group d ->
 Proof. exact selected_char. Qed.
 Print Assumptions C07_names_determined.
 
-Theorem C07_defs_wellformed : forall rows aliases m,
-  wf_file rows aliases = true -> load true rows aliases = Some m ->
-  forall g, wf_group (defs rows aliases g).
+Theorem C07_defs_wellformed : forall rows aliases,
+  wf_file rows aliases = true -> forall g, wf_group (defs rows aliases g).
 Proof. exact defs_wf. Qed.
 Print Assumptions C07_defs_wellformed.
 
@@ -169,6 +182,23 @@ Example C07_example :
       flagname m [80; 82; 73; 77] (2 ^ 63 + 2 + 1) = RNames [[76; 79]; [72; 73]] /\
       flagname m [110; 111; 110; 101; 115; 117; 99; 104] 0 = RNames [] /\ flagname m [110; 111; 110; 101; 115; 117; 99; 104] 1 = RKeyError /\
       flagexist m [84; 97; 114; 103; 101; 116] [[104; 105]; [122; 122]] true true = RBools [false; true; true; false]
+  | None => False
+  end.
+Proof. vm_compute. repeat split; reflexivity. Qed.
+
+(* the defect this check found in the unchanged tree, as a statement about the model of the unfixed loader
+   (load false = names stored as spelled in the file): on the same well-formed file the lookup that S fixes
+   to 2^63 raises KeyError, and so does the second half of value -> names -> value *)
+Example C07_unnormalised_load_violates :
+  wf_file ex_rows ex_aliases = true /\
+  spec_flagval ex_rows ex_aliases [116; 97; 114; 103; 101; 116] [[104; 105]] = RVal (2 ^ 63) /\
+  match load false ex_rows ex_aliases with
+  | Some m => False
+  | None => True      (* the alias row names `target`, the dictionary only has `Target` and `TARGET` *)
+  end /\
+  match load false ex_rows [] with
+  | Some m => flagval m [116; 97; 114; 103; 101; 116] [[104; 105]] = RKeyError /\
+              model_call m (KVNV [84; 97; 114; 103; 101; 116] (2 ^ 63)) = RKeyError
   | None => False
   end.
 Proof. vm_compute. repeat split; reflexivity. Qed.
